@@ -496,6 +496,23 @@ func runC16(c *Ctx) {
 					}
 				}
 			}
+			// ... or filepath.Ext(name) == ".hcl" (if or switch form)
+			for _, f := range CmpFactsAt(in) {
+				op := token.EQL
+				if !want {
+					op = token.NEQ
+				}
+				if f.Op != op || f.Y == nil {
+					continue
+				}
+				for _, pr := range [][2]ssa.Value{{f.X, f.Y}, {f.Y, f.X}} {
+					if s, ok := ConstString(pr[1]); ok && s == suf {
+						if cl, _ := CallOfValue(pr[0]); cl != nil && MatchCC(&cl.Call, Spec{"path/filepath", "", "Ext"}, Spec{"path", "", "Ext"}) {
+							return true
+						}
+					}
+				}
+			}
 			return false
 		}
 		okH, okY := false, false
@@ -520,6 +537,20 @@ func runC16(c *Ctx) {
 		// extension is strings.HasSuffix, and every extension the "file extension should be ..." message promises is
 		// tested (a description in scenario.yml must load like its .yaml and .hcl twins)
 		tested := map[string]bool{}
+		// (filepath.Ext(name) == ext is a suffix test too)
+		EachInstr(rac, func(in ssa.Instruction) {
+			b, ok := in.(*ssa.BinOp)
+			if !ok || (b.Op != token.EQL && b.Op != token.NEQ) {
+				return
+			}
+			for _, pr := range [][2]ssa.Value{{b.X, b.Y}, {b.Y, b.X}} {
+				if ext, isS := ConstString(pr[1]); isS && len(ext) > 1 && ext[0] == '.' {
+					if cl, _ := CallOfValue(pr[0]); cl != nil && MatchCC(&cl.Call, Spec{"path/filepath", "", "Ext"}, Spec{"path", "", "Ext"}) {
+						tested[ext] = true
+					}
+				}
+			}
+		})
 		EachInstr(rac, func(in ssa.Instruction) {
 			cl, ok := in.(*ssa.Call)
 			if !ok || len(cl.Call.Args) != 2 {
